@@ -89,7 +89,7 @@ func loadEngine(repoDir, specDir string, patterns []string) (*Engine, error) {
 			continue
 		}
 		for _, f := range p.GoFiles {
-			if filepath.Base(f) == "verif_contracts.go" {
+			if b := filepath.Base(f); b == "verif_contracts.go" || (strings.HasPrefix(b, "verif_contracts_") && strings.HasSuffix(b, ".go")) {
 				if err := e.contracts.loadFile(f, path, false); err != nil {
 					return nil, err
 				}
